@@ -727,14 +727,39 @@ func elementStrideRule(c *Ctx, r *Result, rule string, floor int) {
 		k := 0
 		instrs(fn, func(in ssa.Instruction) {
 			sl, ok := in.(*ssa.Slice)
-			if !ok || sl.Low == nil || sl.High == nil {
+			if !ok || sl.Low == nil {
 				return
 			}
 			if fb == nil {
 				fb = c.FB(fn)
 			}
-			lo, hi := fb.lin(sl.Low), fb.lin(sl.High)
-			w := hi.add(lo, -1)
+			lo := fb.lin(sl.Low)
+			var w Lin
+			if sl.High != nil {
+				w = fb.lin(sl.High).add(lo, -1)
+			} else {
+				// X[lo:] handed to a fixed-width integer accessor: the width is the accessor's
+				for _, ref := range *sl.Referrers() {
+					call, isCall := ref.(*ssa.Call)
+					if !isCall {
+						continue
+					}
+					name := ""
+					if call.Call.IsInvoke() {
+						name = call.Call.Method.Name()
+					} else if f := call.Call.StaticCallee(); f != nil && fnPkgPath(f) == "encoding/binary" {
+						name = f.Name()
+					}
+					switch strings.TrimPrefix(name, "Put") {
+					case "Uint16":
+						w = linConst(2)
+					case "Uint32":
+						w = linConst(4)
+					case "Uint64":
+						w = linConst(8)
+					}
+				}
+			}
 			if !w.isConst() || w.C <= 0 {
 				return
 			}
@@ -783,6 +808,8 @@ func elementStrideRule(c *Ctx, r *Result, rule string, floor int) {
 func init() {
 	registry["C06"].Meta.Rules["C06.13"] = "consecutive elements do not overlap: where a loop with a counter i takes X[i*S + c : i*S + c + W], S >= W (64-bit integer attribute arrays read with offset i*4 come back with the right type and length and garbage contents)"
 	registry["C06"].Rules = append(registry["C06"].Rules, func(c *Ctx, r *Result) { elementStrideRule(c, r, "C06.13", 8) })
+	registry["C02"].Meta.Rules["C02.15"] = "consecutive elements of an attribute value do not overlap: where a loop with a counter i writes or reads a fixed-width integer at X[i*S + c:] or X[i*S + c : i*S + c + W], S >= W (C06.13 with the open-ended form PutUint64(buf[i*4:], v): every []int64 attribute with two or more elements is stored with overlapping elements and a zero tail)"
+	registry["C02"].Rules = append(registry["C02"].Rules, func(c *Ctx, r *Result) { elementStrideRule(c, r, "C02.15", 8) })
 }
 
 func init() {
@@ -2966,4 +2993,124 @@ func (c *Ctx) introducedAfterReview(fn *ssa.Function) bool {
 		}
 	}
 	return false
+}
+
+// ---- the attribute reader's own parser of the heap header agrees with the heap's serializer (C02.16) ----
+func init() {
+	registry["C02"].Meta.Rules["C02.16"] = "the attribute reader finds the heap's parameters where the heap writer puts them: for the fields readFractalHeapHeaderRaw takes out of the header (heap ID length, maximum managed object size, maximum heap size) offset and width are those at which writeHeaderAt serializes them, evaluated at 8-byte sizes (a cursor not advanced past the filter length reads the maximum object size two bytes early: dense attributes of 256 bytes or more come back truncated or not at all)"
+	registry["C02"].Rules = append(registry["C02"].Rules, func(c *Ctx, r *Result) {
+		w, rd := c.FnOpt("structures.WritableFractalHeap.writeHeaderAt"), c.FnOpt("core.readFractalHeapHeaderRaw")
+		if w == nil || rd == nil {
+			r.Undec("C02.16", "core.readFractalHeapHeaderRaw~structures.WritableFractalHeap.writeHeaderAt", "", "writer or raw reader not found")
+			return
+		}
+		wl, rl := c.layoutOf(w, true), c.layoutOf(rd, false)
+		n := 0
+		for _, pair := range [][2]string{{"HeapIDLen", "HeapIDLength"}, {"MaxManagedObjSize", "MaxManagedObjectSize"}, {"MaxHeapSize", "MaxHeapSize"}} {
+			re, okR := rl[pair[0]]
+			we, okW := wl[pair[1]]
+			if !okR || !okW {
+				continue
+			}
+			n++
+			same := at8(we.off) != "" && at8(we.off) == at8(re.off) && (we.width == re.width || we.width == "" || re.width == "")
+			r.Check(same, "C02.16", "core.readFractalHeapHeaderRaw~writeHeaderAt#"+pair[0], re.pos, fmt.Sprintf("read at offset %s width %s; written at offset %s width %s (%s), both taken at 8-byte sizes", re.off, re.width, we.off, we.width, we.pos))
+		}
+		if n < 3 {
+			r.Undec("C02.16", "core.readFractalHeapHeaderRaw~structures.WritableFractalHeap.writeHeaderAt", c.Pos(rd.Pos()), fmt.Sprintf("only %d of the three fields were located on both sides", n))
+		}
+	})
+}
+
+// ---- a test that guards 'the rest of the buffer' asks for no more than a rest (C02.17 / C11.23) ----
+//
+// if cur < len(b) { v = b[cur:] }: where the region behind a comparison of a cursor with len(b) takes nothing from b but the
+// open-ended remainder b[cur:], the comparison is cur < len(b) or cur <= len(b). cur < len(b)-1 silently drops a remainder of
+// one byte (the value of a one-character string attribute).
+func remainderGuardRule(c *Ctx, r *Result, rule string, floor int) {
+	n := 0
+	for _, fn := range c.LibFuncs() {
+		pk := shortPkg(fnPkgPath(fn))
+		if fn.Blocks == nil || (pk != "core" && pk != "hdf5" && pk != "structures") {
+			continue
+		}
+		var fb *FB
+		k := 0
+		for _, b := range fn.Blocks {
+			ifi, ok := b.Instrs[len(b.Instrs)-1].(*ssa.If)
+			if !ok {
+				continue
+			}
+			cmp, ok := ifi.Cond.(*ssa.BinOp)
+			if !ok || (cmp.Op != token.LSS && cmp.Op != token.LEQ) {
+				continue
+			}
+			region := edgeRegion(b, b.Succs[0])
+			if len(region) == 0 {
+				continue
+			}
+			// remainders taken in the region with the compared cursor as low bound
+			var rem *ssa.Slice
+			other := false
+			for blk := range region {
+				for _, in := range blk.Instrs {
+					switch x := in.(type) {
+					case *ssa.Slice:
+						if x.Low != nil && x.High == nil && stripConv(x.Low) == stripConv(cmp.X) && isBytesOrString(x.X.Type()) {
+							rem = x
+						}
+					}
+				}
+			}
+			if rem == nil {
+				continue
+			}
+			for blk := range region {
+				for _, in := range blk.Instrs {
+					switch x := in.(type) {
+					case *ssa.Slice:
+						if x != rem && x.X == rem.X {
+							other = true
+						}
+					case *ssa.IndexAddr:
+						if x.X == rem.X {
+							other = true
+						}
+					case *ssa.Index:
+						if x.X == rem.X {
+							other = true
+						}
+					case *ssa.Lookup:
+						if x.X == rem.X {
+							other = true
+						}
+					}
+				}
+			}
+			if other {
+				continue
+			}
+			if fb == nil {
+				fb = c.FB(fn)
+			}
+			d := fb.lin(cmp.Y).add(fb.lenLin(rem.X), -1)
+			if !d.isConst() {
+				continue
+			}
+			n++
+			k++
+			r.Check(d.C >= 0, rule, fmt.Sprintf("%s#remainder-guard-%d", c.Name(fn), k), c.InstrPos(cmp), fmt.Sprintf("the rest of the buffer is taken behind a test of the cursor against len%+d", d.C))
+		}
+	}
+	if n < floor {
+		r.Shortfall(c, rule, fmt.Sprintf("%s: only %d remainder guards found (expected >= %d)", rule, n, floor))
+	}
+}
+
+func init() {
+	txt := "a test that guards 'the rest of the buffer' asks for no more than a rest: where the region behind cur < len(b) - k (or <=) takes nothing from b but the open-ended remainder b[cur:], k is 0 (with len(data)-1 the one-byte value of an empty-string attribute is parsed as no data and reads back as an empty list; the compact-to-dense migration then writes that to disk)"
+	registry["C02"].Meta.Rules["C02.17"] = txt
+	registry["C02"].Rules = append(registry["C02"].Rules, func(c *Ctx, r *Result) { remainderGuardRule(c, r, "C02.17", 1) })
+	registry["C11"].Meta.Rules["C11.23"] = txt + " (shared with C02.17)"
+	registry["C11"].Rules = append(registry["C11"].Rules, func(c *Ctx, r *Result) { remainderGuardRule(c, r, "C11.23", 1) })
 }
